@@ -330,6 +330,21 @@ class Universe:
                     O[p].append(O[c])
                     self.probe("children_appended")
                 elif how == 4:
+                    d = self.pick([hd for hd in cands if hd != c], st["c"] // 10)
+                    if d is not None and (st["c"] // 5) % 2 == 0:
+                        # a batch that names one object twice: the second mention is refused, and the
+                        # parent lists every object of the batch once
+                        try:
+                            O[p].extend([O[c], O[d], O[c]])
+                            refused = False
+                        except Exception:  # noqa: BLE001 - the refusal (composing its message may itself fail on an assembly without a location)
+                            refused = True
+                        self.probe("batch_naming_an_object_twice")
+                        if not refused:
+                            self.fail("C01.rejected", f"step {k}: extend() of a batch naming {type(O[c]).__name__} twice was accepted", what="batch-duplicate")
+                        self.m_attach(p, c)
+                        self.m_attach(p, d)
+                        return True
                     O[p].extend([O[c]])
                     self.probe("children_appended")
                 else:
